@@ -347,7 +347,13 @@ def irrelevant_edits(r, doc, opts, info, names=False):
             # (end-to-end twins only: names show in the listing and the log, never in verdict, score or the
             # written file) a renamed person — half of the time the namesake of another registration
             other = r.choice(regs)
-            if r.random() < 0.5 and other is not reg:
+            # preferably the namesake of somebody already assigned to the same course (both are hidden
+            # attendees of it under --ignore-assigned)
+            mates = [x for x in regs if x is not reg and t in x["tracks"] and t in reg["tracks"] and reg["tracks"][t]["course_id"] is not None
+                     and x["tracks"][t]["course_id"] == reg["tracks"][t]["course_id"]]
+            if mates and r.random() < 0.7:
+                other = r.choice(mates)
+            if (r.random() < 0.5 or other in mates) and other is not reg:
                 reg["persona"]["given_names"] = other["persona"]["given_names"]
                 reg["persona"]["family_name"] = other["persona"]["family_name"]
             else:
